@@ -25,7 +25,7 @@ run_one() { # id patchfile(or "-")
   fi
   local rc=-1 rules=""
   if $applies; then
-    local out; out="$("$HERE/bin/h5sa" -prop "$PROP" -tier quick -repo "$dir" -verif "$HERE" -no-evidence 2>&1)"; rc=$?
+    local out; out="$("${H5SA_BIN:-$HERE/bin/h5sa}" -prop "$PROP" -tier quick -repo "$dir" -verif "$HERE" -no-evidence 2>&1)"; rc=$?
     rules="$(printf '%s\n' "$out" | sed -n 's/^FINDING property=[A-Z0-9]* rule=\([A-Z0-9.]*\) .*/\1/p' | sort -u | tr '\n' ' ')"
   fi
   rm -rf "$dir"
